@@ -1040,6 +1040,40 @@ fn main() {
                 None => println!("iterators=error"),
             }
         }
+        // table_filter_versions : like table_filter_sweep, but every user key has 5 versions (sequence 9..5) with incompressible
+        // values, and every version is looked up with its own sequence bound
+        "table_filter_versions" => {
+            let mut missing = 0usize;
+            let mut first = String::new();
+            let mut x: u32 = 12345;
+            for vlen in [100usize, 300, 700, 900] {
+                let fs = std::sync::Arc::new(raindb::fs::InMemoryFileSystem::new());
+                let o = v::options_with(fs, 1024);
+                let mut owned: Vec<(Vec<u8>, u64, bool, Vec<u8>)> = vec![];
+                for i in 0..40u32 {
+                    for seq in (5..=9u64).rev() {
+                        let val: Vec<u8> = (0..vlen).map(|_| { x = x.wrapping_mul(1664525).wrapping_add(1013904223); (x >> 24) as u8 }).collect();
+                        owned.push((format!("key{:04}", i).into_bytes(), seq, true, val));
+                    }
+                }
+                let ents: Vec<(&[u8], u64, bool, &[u8])> = owned.iter().map(|e| (e.0.as_slice(), e.1, e.2, e.3.as_slice())).collect();
+                if !v::table_build(&o, &ents) {
+                    println!("result=build-failed");
+                    return;
+                }
+                for e in &owned {
+                    let (code, val) = v::table_get(&o, &e.0, e.1);
+                    if code != 0 || val != e.3 {
+                        missing += 1;
+                        if first.is_empty() {
+                            first = format!("{} @ {} (value length {})", String::from_utf8_lossy(&e.0), e.1, vlen);
+                        }
+                    }
+                }
+            }
+            println!("missing={}", missing);
+            println!("first_missing={}", first);
+        }
         "vs_recover" => {
             // a database is created, written and closed; a fresh version set recovers from its files
             use raindb::WriteOptions;
